@@ -41,7 +41,7 @@ fn visual_elements<'a, 'b>(
             return false;
         }
         let Some(name_node) = visual_element_node
-            .descendants()
+            .children()
             .find(|n| n.tag_name().name() == "elementName")
         else {
             return false;
@@ -65,11 +65,11 @@ fn char_data(node: roxmltree::Node<'_, '_>) -> Option<String> {
 
 fn attrib<'a, 'b>(node: roxmltree::Node<'a, 'b>, label: &str) -> Option<roxmltree::Node<'a, 'b>> {
     let attribs = node
-        .descendants()
+        .children()
         .find(|n| n.tag_name().name() == "elementAttributes")?;
 
     for entry in attribs
-        .descendants()
+        .children()
         .filter(|n| n.tag_name().name() == "entry")
     {
         let Some(s) = entry.first_element_child() else {
